@@ -608,10 +608,20 @@ def arrayLayout (m : Mode) (l : List EV) : Bool × Bool :=
   let big := decide (n > 0) && (isArrV v0 || isObjV v0 || isStrV v0)
   (multi, big)
 
-/-- the XDL class name: the `$type` member if it is a string -/
+/-- `const char* Var::operator*()` (src/Var.cpp): the C string a Var stands for -/
+def varCStr : EV → Bytes
+  | .str s => s
+  | .arr _ => [91, 63, 93]            -- "[?]"
+  | .obj _ => [123, 63, 125]          -- "{?}"
+  | .null => [110, 117, 108, 108]     -- "null"
+  | .none => []
+  | .bool b => if b then [116, 114, 117, 101] else [102, 97, 108, 115, 101]
+  | _ => [63]                         -- "?" (INT, NUMBER, FLOAT)
+
+/-- the XDL class name: `**cname` of the `$type` member (`v.getp(ASL_XDLCLASS)`), whatever its type -/
 def classOf : List (Bytes × EV) → Option Bytes
   | [] => none
-  | (k, v) :: t => if k = classKey then (match v with | .str s => some s | _ => some [63]) else classOf t
+  | (k, v) :: t => if k = classKey then some (varCStr v) else classOf t
 
 mutual
 /-- `_encode(v)` at indentation `_level = lvl` as a pure function (string sink) -/
